@@ -189,7 +189,8 @@ def Db.permits (db : Db) (user : Option Bytes) (kind : PermKind) (key : Bytes) :
 /-- `is_valid_token` / `is_valid_user_token` -/
 def Db.validLogin (db : Db) (token : Bytes) (userName : Option Bytes) : Bool :=
   match userName with
-  | some u => (match db.getValue (b!"$$user_" ++ u) with | some e => decide (e.value = token) | none => false)
+  -- (a removed user that was already on disk stays in the map as a tombstone: it is no user any more — fix in /repo, seventh round)
+  | some u => (match db.getValue (b!"$$user_" ++ u) with | some e => e.state != .deleted && decide (e.value = token) | none => false)
   | none => (match db.getValue Gen.tokenKey with | some e => decide (e.value = token) | none => false)
 
 def noDbSelected (sid : Sid) : Out := (.error Gen.noDbSelectedMsg, [.push sid Gen.noDbSelectedMsg])
